@@ -58,7 +58,7 @@ fn run_g<C: Codec>(c: &Case, trace: bool) -> RunOut {
         out.nontrivial = true;
         out.probe("accepted");
         let sig = |clause: String| format!("C11:{f}:{ty}:{name}:{clause}");
-        let input = || format!("  input: {:?}\n  decoded by {name}: {pkt:?}", Bs(stream[..stream.len().min(200)].to_vec()));
+        let input = || format!("  input: {:?}\n  decoded by {name}: {}", Bs(stream[..stream.len().min(200)].to_vec()), safe_debug(pkt));
         match guarded(|| C::encode(pkt)) {
             Err(m) => out.violate(sig("reencode-panic".into()), format!("re-encoding an accepted packet panicked: {m}\n{}", input())),
             Ok(Err(e)) => out.violate(sig("reencode-err".into()), format!("re-encoding an accepted packet failed: {e:?}\n{}", input())),
